@@ -79,9 +79,11 @@ class PortState:
             self.ay[self.outfffd] = value
 
 class Frame:
-    __slots__ = ('fetch', 'ins', 'last', 'accepted', 'iff', 'short')
-    def __init__(self, fetch, ins, last, accepted, iff, short):
-        self.fetch, self.ins, self.last, self.accepted, self.iff, self.short = fetch, ins, last, accepted, iff, short
+    """fetch counter, port readings, kind of the last instruction, whether the interrupt at its end was accepted, IFF at its
+    end (before the interrupt), whether it was a forced short frame, PC after the boundary was processed."""
+    __slots__ = ('fetch', 'ins', 'last', 'accepted', 'iff', 'short', 'pc')
+    def __init__(self, fetch, ins, last, accepted, iff, short, pc):
+        self.fetch, self.ins, self.last, self.accepted, self.iff, self.short, self.pc = fetch, ins, last, accepted, iff, short, pc
 
 class Block:
     """One input recording block: frames, the clock at its start, and (optionally) the snapshot that precedes it."""
@@ -136,8 +138,10 @@ class Recorder:
             if short or regs[T] >= flen:
                 break
         last = classify(op0, op1)
-        if regs[IFF] and classify(cpu.peek(pc), cpu.peek((pc + 1) & 0xFFFF)) != last:
-            self.hazard = True
+        if regs[IFF]:
+            again = classify(cpu.peek(pc), cpu.peek((pc + 1) & 0xFFFF))
+            if (again if again != 'prefix' else 'other') != (last if last != 'prefix' else 'other'):
+                self.hazard = True
         regs[T] = 0
         iff = 1 if regs[IFF] else 0
         accepted = False
@@ -164,7 +168,7 @@ class Recorder:
         st['ins'] += len(ins)
         if short:
             st['short'] += 1
-        return Frame(fetch, ins, last, accepted, iff, short)
+        return Frame(fetch, ins, last, accepted, iff, short, int(regs[PC]))
 
     def accept(self):
         cpu = self.cpu
